@@ -25,7 +25,7 @@ namespace MlModel.Tree
 
 /-- The Python type of a key object, as far as `isinstance` can tell key objects apart. -/
 inductive KType where
-  | str | reserved | int | index | literal
+  | str | reserved | int | index | literal | other
   deriving DecidableEq, Repr, Inhabited
 
 /-- `type(k)` -/
@@ -36,12 +36,13 @@ def PKey.pyType : PKey → KType
   | .self => .reserved
   | .skip => .reserved
   | .lit _ _ => .literal
+  | .obj _ => .other
 
 /-- `issubclass(a, b)`: `class Reserved(str)` (tree.py:63), `class Index(int)` (tree.py:42), nothing else. -/
 def KType.sub : KType → KType → Bool
   | .reserved, .str => true
   | .index, .int => true
-  | .str, .str | .reserved, .reserved | .int, .int | .index, .index | .literal, .literal => true
+  | .str, .str | .reserved, .reserved | .int, .int | .index, .index | .literal, .literal | .other, .other => true
   | _, _ => false
 
 /-- `a == b` on key objects: `str.__eq__` on the characters (`Reserved` inherits it), `int.__eq__` on the value
